@@ -46,8 +46,11 @@ def real_files(d, fn, layout, tag):
         return {"err": pilgen.classify_exc(e)}, temp
     out = []
     for ext in (".st", ".eq", ".wc"):
-        with open(temp + ext) as f:
-            out.append(f.read())
+        try:
+            with open(temp + ext) as f:
+                out.append(f.read())
+        except OSError:
+            return {"err": "the driver did not write %s%s (the files it names on the designer's command line are <tempname>.st/.wc/.eq)" % (os.path.basename(temp), ext)}, temp
     return {"ok": {"st": out[0], "eq": out[1], "wc": out[2]}}, temp
 
 
